@@ -100,3 +100,34 @@ func VH_C19_install() {
 	}
 	vReach("end")
 }
+
+//verif:check C19,C09 stubs=env,valuefile,abslog,snapfs reach=success,stale-snapshot,end desc="a stale install-snapshot request of the current term - delivered late, e.g. from an old connection of the same leader: its snapshot is at or below what this node already has - must not take the node backwards: snapshot index, commit index and applied index never decrease and the status relations keep holding" bounds="follower log of 2 entries after a symbolic base, request with lastIndex anywhere at or below the commit index, consistent with the follower's log (same leader, same history)"
+func VH_C19_install_stale() {
+	c := vInstallSetup(2, false)
+	r, a, req := c.r, c.a, c.req
+	// the request comes from the legitimate leader of the current or a newer term, but it is old: it describes a snapshot
+	// of a prefix this node has already committed (so wherever the node still has that position, it agrees)
+	vAssume(req.term >= r.term)
+	vAssume(req.lastIndex <= r.commitIndex)
+	vAssume(vImp(vAnd(req.lastIndex > a.base, req.lastIndex <= a.last()), vTermAt(a, a.base, req.lastIndex) == req.lastTerm))
+	vAssume(vImp(req.lastIndex == a.base, req.lastTerm == vBaseTerm))
+	vAssume(vImp(req.lastIndex == r.snaps.index, req.lastTerm == r.snaps.term))
+	t0, c0, f0, s0 := r.term, r.commitIndex, r.fsm.index, r.snaps.index
+	res, _ := r.onInstallSnapRequest(req, c.conn)
+	vDrainFSM(r)
+	for len(r.fsmRestoredCh) > 0 {
+		<-r.fsmRestoredCh
+	}
+	if res == success {
+		vReach("success")
+	}
+	if req.lastIndex < s0 {
+		vReach("stale-snapshot")
+	}
+	vAssert(r.term >= t0, "term-never-decreases")
+	vAssert(r.commitIndex >= c0, "commit-never-decreases/stale-install")
+	vAssert(r.fsm.index >= f0, "applied-never-decreases/stale-install")
+	vAssert(r.snaps.index >= s0, "snapshot-index-never-decreases/stale-install")
+	vAssertNI(r, a, "NI-stale")
+	vReach("end")
+}
